@@ -17,7 +17,7 @@ from __future__ import annotations
 import random
 
 EXNS = {"KeyError", "IndexError", "AssertionError", "TypeError", "ValueError", "JellyConformanceError", "JellyAssertionError",
-        "JellyNotImplementedError", "StopIteration", "NotImplementedError", "ZeroDivisionError", "AttributeError", "RecursionError"}
+        "JellyNotImplementedError", "StopIteration", "NotImplementedError", "ZeroDivisionError", "AttributeError", "RecursionError", "RuntimeError"}
 
 
 def nlist(s: str) -> str:
@@ -358,6 +358,95 @@ def gen_writer_cases(ctx, n: int) -> tuple[list[str], dict]:
         cases.append(f"{lhs} = {rhs}")
         stats["streams"] += 1
         stats["frames"] += len(frames)
+        if exc:
+            stats["exceptions"][exc] = stats["exceptions"].get(exc, 0) + 1
+    return cases, stats
+
+
+def run_driver(phys: int, cfg: dict, ns: list, stmts: list):
+    """The real writer drivers: a GenericStatementSink with the bindings and the statements, the stream for the physical type,
+    then triples_stream_frames / quads_stream_frames / graphs_stream_frames(stream, sink) consumed to the end or to its exception."""
+    from pyjelly.integrations.generic import generic_sink as gs
+    from pyjelly.integrations.generic import serialize as ser
+    from pyjelly.options import LookupPreset, StreamParameters
+    from pyjelly.serialize.streams import GraphStream, QuadStream, SerializerOptions, TripleStream
+
+    frames = []
+    try:
+        preset = LookupPreset(max_names=cfg["maxn"], max_prefixes=cfg["maxp"], max_datatypes=cfg["maxd"])
+        params = StreamParameters(generalized_statements=cfg["gen"], rdf_star=cfg["star"], version=cfg["version"], delimited=cfg["delimited"],
+                                  namespace_declarations=cfg["nd"], stream_name=cfg["name"])
+        opts = SerializerOptions(flow=None, frame_size=cfg["frame_size"], logical_type=cfg["logical"], params=params, lookup_preset=preset)
+        enc = ser.GenericSinkTermEncoder(lookup_preset=preset)
+        stream = {1: TripleStream, 2: QuadStream, 3: GraphStream}[phys](encoder=enc, options=opts)
+        sink = gs.GenericStatementSink()
+        for a, b in ns:
+            sink.bind(a, gs.IRI(b))
+        for st in stmts:
+            sink.add(st)
+        it = {1: ser.triples_stream_frames, 2: ser.quads_stream_frames, 3: ser.graphs_stream_frames}[phys](stream, sink)
+    except Exception as e:  # noqa: BLE001
+        return [], type(e).__name__
+    while True:
+        try:
+            frames.append(next(it))
+        except StopIteration:
+            return frames, None
+        except Exception as e:  # noqa: BLE001
+            return frames, type(e).__name__
+
+
+def gen_driver_cases(ctx, n: int) -> tuple[list[str], dict]:
+    import gen as genmod
+    from pyjelly.integrations.generic import generic_sink as gs
+
+    r = ctx.rng
+    cases: list[str] = []
+    stats = {"streams": 0, "frames": 0, "exceptions": {}, "skipped": 0, "by_driver": {"triples": 0, "quads": 0, "graphs": 0}, "mixed_sinks": 0}
+    oo = "[" + "; ".join(f'("{a}"%string, "{b}"%string)' for a, b in oneof_members()) + "]"
+    tries = 0
+    while len(cases) < n and tries < 6 * n:
+        tries += 1
+        phys = r.choice([1, 2, 3])
+        g = genmod.Gen(r, nprefix=r.randint(1, 5), nname=r.randint(2, 6), ndt=r.randint(1, 3))
+        arity = 3 if phys == 1 else 4
+        raw = g.statements(r.choice([0, 1, 2, 4, 8, 12]), arity, prepeat=0.7 if phys == 3 else 0.55)
+        stmts = [gs.Triple(*s) if arity == 3 else gs.Quad(*s) for s in raw]
+        mixed = r.random() < 0.12 and stmts
+        if mixed:  # a statement of the other kind somewhere in the sink
+            j = r.randrange(len(stmts))
+            stmts[j] = gs.Quad(*stmts[j], gs.DefaultGraph) if arity == 3 else gs.Triple(*stmts[j][:3])
+            stats["mixed_sinks"] += 1
+        need = genmod.table_need(raw)
+        odd = r.random() < 0.15
+        cfg = {
+            "maxn": r.choice([8, 4097, 7, max(8, need[0])]) if odd else r.choice([max(8, need[0] + need[1] + 2), 4000, 4096]),
+            "maxp": r.choice([1, 5000, 0]) if odd else r.choice([0, max(1, need[1]), max(1, need[1]) + 1, 150]),
+            "maxd": r.choice([0, 1, 5000]) if odd else r.choice([max(1, need[2]), max(1, need[2]) + 1, 32]),
+            "gen": r.random() < 0.5, "star": r.random() < 0.5, "version": r.choice([0, 1, 2, 3] if odd else [0, 1, 2]), "delimited": r.random() < 0.7,
+            "nd": r.random() < 0.5, "name": r.choice(["", "s", "näme"]),
+            "frame_size": r.choice([1, 2, 3, 250]),
+            "logical": r.choice([0, 1, 2, 3, 4, 13, 14, 114, 7]) if odd else r.choice({1: [0, 1, 3], 2: [0, 2, 4], 3: [0, 2, 3, 4]}[phys]),
+        }
+        ns = g.namespaces(r.randint(0, 3)) if r.random() < 0.7 else []
+        frames, exc = run_driver(phys, cfg, ns, stmts)
+        if exc is not None and exc not in EXNS:
+            stats["skipped"] += 1
+            continue
+        try:
+            st_lit = "[" + "; ".join(obj_lit(s) for s in stmts) + "]"
+        except ValueError:
+            stats["skipped"] += 1
+            continue
+        ns_lit = "[" + "; ".join(f"({nlist(a)}, {nlist(b)})" for a, b in ns) + "]"
+        b = lambda x: "true" if x else "false"  # noqa: E731
+        lhs = (f"tx_driver {oo} ({phys}) ({cfg['maxn']}) ({cfg['maxp']}) ({cfg['maxd']}) {b(cfg['gen'])} {b(cfg['star'])} ({cfg['version']}) "
+               f"{b(cfg['delimited'])} {b(cfg['nd'])} {nlist(cfg['name'])} ({cfg['frame_size']}) ({cfg['logical']}) {ns_lit} {st_lit}")
+        rhs = "([" + "; ".join(pb_canon_lit(f) for f in frames) + "], " + ("None" if exc is None else f"Some {exc}") + ")"
+        cases.append(f"{lhs} = {rhs}")
+        stats["streams"] += 1
+        stats["frames"] += len(frames)
+        stats["by_driver"][{1: "triples", 2: "quads", 3: "graphs"}[phys]] += 1
         if exc:
             stats["exceptions"][exc] = stats["exceptions"].get(exc, 0) + 1
     return cases, stats
